@@ -19,3 +19,8 @@ import EmuVerif.Props.C04
 #print axioms EmuVerif.Props.C04.runTable_sound
 #print axioms EmuVerif.Props.C04.run_depends_only_on_cell
 #print axioms EmuVerif.Props.C04.run_kind_defaultRydberg_counterexample
+#print axioms EmuVerif.Props.C04.unsupported_pulsed_never_emulated
+#print axioms EmuVerif.Props.C04.extract_guard_used_counterexample
+#print axioms EmuVerif.Props.C04.solver_form_irrelevant
+#print axioms EmuVerif.Props.C04.dmrg_any_form
+#print axioms EmuVerif.Props.C04.solver_identity_counterexample
